@@ -235,6 +235,24 @@ static_assert(std::is_copy_constructible_v<Trk> && std::is_move_constructible_v<
 template <class T>
 inline constexpr bool IS_TRACKED = std::is_base_of_v<TrkCore, T>;
 
+// user-provided copy constructor, but trivial move constructor and trivial destructor: not trivially copyable, so a
+// copy must go through the copy constructor (counted), while relocation by memcpy/memmove is legitimate
+struct Cpy
+{
+    int32_t val;
+    uint32_t gen;
+    Cpy(int v) : val(v), gen(0) {}
+    Cpy(const Cpy& o) : val(o.val), gen(o.gen + 1) { ++R().copy_ctor; }
+    Cpy(Cpy&&) = default;
+    Cpy& operator=(const Cpy&) = default;
+    Cpy& operator=(Cpy&&) = default;
+    ~Cpy() = default;
+    friend bool operator==(const Cpy& a, const Cpy& b) { return a.val == b.val; }
+    friend bool operator<(const Cpy& a, const Cpy& b) { return a.val < b.val; }
+};
+static_assert(!std::is_trivially_copy_constructible_v<Cpy> && std::is_trivially_move_constructible_v<Cpy> &&
+              std::is_trivially_destructible_v<Cpy> && !std::is_trivially_copyable_v<Cpy>);
+
 template <class T, class = void>
 struct VT
 {
@@ -258,6 +276,13 @@ struct VT<W8>
 {
     static W8 make(int x) { return W8{static_cast<u8>(x)}; }
     static int read(const W8& v) { return v.v; }
+    static constexpr bool tracked = false;
+};
+template <>
+struct VT<Cpy>
+{
+    static Cpy make(int x) { return Cpy(x); }
+    static int read(const Cpy& v) { return v.val; }
     static constexpr bool tracked = false;
 };
 template <class T>
